@@ -20,6 +20,11 @@ type zzPDRSpec struct {
 	sdfFD                          bool // first SDF filter carries a (concrete) flow description
 }
 
+type zzSDFExtra struct {
+	ttc, spi, fl     bool
+	ttcB, spiB, flB []byte
+}
+
 type zzPDRIn struct {
 	sp      zzPDRSpec
 	pdrid   []byte
@@ -32,6 +37,7 @@ type zzPDRIn struct {
 	qer     [2][]byte
 	urr     [2][]byte
 	sdfBID  [2][]byte // SDF filter id (4 bytes) per filter
+	sdfX    [2]zzSDFExtra
 	blocks  [][]*ie.IE
 	pdiKids []*ie.IE
 }
@@ -68,7 +74,28 @@ func zzMkPDR(sp zzPDRSpec) *zzPDRIn {
 			p = append(p, in.sdfBID[i]...)
 			pdi = append(pdi, ie.New(ie.SDFFilter, p))
 		} else {
-			pdi = append(pdi, ie.New(ie.SDFFilter, append([]byte{0x10, 0}, in.sdfBID[i]...)))
+			// a filter without flow description may carry ToS Traffic Class (2 octets), Security
+			// Parameter Index (4) and Flow Label (3) in front of its filter id, in that order
+			x := &in.sdfX[i]
+			flags := byte(0x10)
+			p := []byte{0, 0}
+			if x.ttc = nondetBool("sdf-ttc"); x.ttc {
+				flags |= 0x02
+				x.ttcB = nondetBytes("ttc", 2)
+				p = append(p, x.ttcB...)
+			}
+			if x.spi = nondetBool("sdf-spi"); x.spi {
+				flags |= 0x04
+				x.spiB = nondetBytes("spi", 4)
+				p = append(p, x.spiB...)
+			}
+			if x.fl = nondetBool("sdf-fl"); x.fl {
+				flags |= 0x08
+				x.flB = nondetBytes("fl", 3)
+				p = append(p, x.flB...)
+			}
+			p[0] = flags
+			pdi = append(pdi, ie.New(ie.SDFFilter, append(p, in.sdfBID[i]...)))
 		}
 	}
 	in.pdiKids = pdi
@@ -199,6 +226,27 @@ func (in *zzPDRIn) checkPDR(attrs []byte, seid uint64, link uint32, create bool,
 			continue
 		}
 		zzAssert("C02.pdi.sdf.filter-id."+tag, sdf.BID != nil && *sdf.BID == zzBE32(in.sdfBID[k]))
+		// ToS / SPI / flow label: present exactly when flagged, carrying the SMF's octets (the byte
+		// order the kernel wants is not documented: either order is accepted)
+		x := in.sdfX[k]
+		zzAssert("C02.pdi.sdf.ttc.presence."+tag, (sdf.TTC != nil) == x.ttc)
+		if x.ttc && sdf.TTC != nil {
+			be := uint16(x.ttcB[0])<<8 | uint16(x.ttcB[1])
+			le := uint16(x.ttcB[1])<<8 | uint16(x.ttcB[0])
+			zzAssert("C02.pdi.sdf.ttc.value."+tag, *sdf.TTC == be || *sdf.TTC == le)
+		}
+		zzAssert("C02.pdi.sdf.spi.presence."+tag, (sdf.SPI != nil) == x.spi)
+		if x.spi && sdf.SPI != nil {
+			be := zzBE32(x.spiB)
+			le := uint32(x.spiB[3])<<24 | uint32(x.spiB[2])<<16 | uint32(x.spiB[1])<<8 | uint32(x.spiB[0])
+			zzAssert("C02.pdi.sdf.spi.value."+tag, *sdf.SPI == be || *sdf.SPI == le)
+		}
+		zzAssert("C02.pdi.sdf.fl.presence."+tag, (sdf.FL != nil) == x.fl)
+		if x.fl && sdf.FL != nil {
+			be := uint32(x.flB[0])<<16 | uint32(x.flB[1])<<8 | uint32(x.flB[2])
+			le := uint32(x.flB[2])<<16 | uint32(x.flB[1])<<8 | uint32(x.flB[0])
+			zzAssert("C02.pdi.sdf.fl.value."+tag, *sdf.FL == be || *sdf.FL == le)
+		}
 		wantFD := k == 0 && sp.sdfFD
 		zzAssert("C02.pdi.sdf.fd.presence."+tag, (sdf.FD != nil) == wantFD)
 		if wantFD && sdf.FD != nil {
